@@ -306,12 +306,11 @@ impl Lease for TtlLease {
 
     /// Quick check if there might be expired keys.
     ///
-    /// This is a heuristic check - samples first 10 entries.
-    /// May return false negatives but never false positives.
+    /// Returns true iff at least one registered key has expired.
     ///
     /// # Performance
     ///
-    /// O(1) - Checks first few entries only
+    /// O(N) worst case (no expired key); stops at the first expired entry
     fn may_have_expired_keys(
         &self,
         now: SystemTime,
@@ -320,15 +319,10 @@ impl Lease for TtlLease {
             return false;
         }
 
-        // Quick check: iterate first 10 entries
-        // DashMap::iter().take(10) is cheap (early termination)
-        for entry in self.key_to_expiry.iter().take(10) {
-            if *entry.value() <= now {
-                return true;
-            }
-        }
-
-        false
+        // Every registered key is looked at (stopping at the first expired one). Sampling only
+        // the first few entries missed expired keys whenever those happened to sit behind ten
+        // live ones, and the cleanup worker then never removed them.
+        self.key_to_expiry.iter().any(|entry| *entry.value() <= now)
     }
 
     /// Get total number of keys with active leases.
@@ -375,18 +369,17 @@ impl Lease for TtlLease {
             ))
         })?;
 
-        let now = SystemTime::now();
-
         // Clear existing data
         self.key_to_expiry.clear();
         self.apply_counter.store(0, Ordering::Relaxed);
 
-        // Rebuild single index, skipping expired keys
+        // Rebuild the index. Keys that expired while the node was down are kept: the state
+        // machine still holds their data (it was persisted with the last checkpoint), and only
+        // an index entry lets the next cleanup run delete it. Dropping them here would leave
+        // an expired key readable forever.
         for (key, expire_at) in snapshot.key_to_expiry {
-            if expire_at > now {
-                let key_bytes = Bytes::from(key);
-                self.key_to_expiry.insert(key_bytes, expire_at);
-            }
+            let key_bytes = Bytes::from(key);
+            self.key_to_expiry.insert(key_bytes, expire_at);
         }
 
         // Update has_keys flag
